@@ -177,8 +177,8 @@ class LockLog:
     def attach(self, solver):
         name = '_compute_powertrain_variables'
         orig = getattr(solver, name, None)
-        if orig is None:
-            return False
+        if orig is None or not hasattr(solver, '_Solver__powertrain_is_locked'):
+            return False      # internals renamed: the lock flag is not observable, lock-dependent comparisons are skipped
         log = self
 
         def wrapped(*a, **k):
@@ -286,7 +286,7 @@ def observe(b, solver, lock):
     o['units'] = {'pos': E[-1].time_variables['angular position'][0].unit if E[-1].time_variables['angular position'] else None,
                   'speed': E[-1].time_variables['angular speed'][0].unit if E[-1].time_variables['angular speed'] else None}
     o['locked'] = list(lock.flags)
-    o['final_locked'] = bool(getattr(solver, '_Solver__powertrain_is_locked', False))
+    o['final_locked'] = bool(getattr(solver, '_Solver__powertrain_is_locked')) if hasattr(solver, '_Solver__powertrain_is_locked') else None
     o['load_log'] = list(b.load_log)
     # current attributes (C17: last sample equals the attribute)
     attrs = []
@@ -532,7 +532,7 @@ def compare_hist(tr, st, recs, rel=1e-7):
             g = compare_gear_vars(tr, j, r['raw'])
             if g is not None:
                 return g
-    if st.get('locked') is not None and (st['locked'] == '1') != tr['final_locked']:
+    if st.get('locked') is not None and tr['final_locked'] is not None and (st['locked'] == '1') != tr['final_locked']:
         return f"final lock flag {tr['final_locked']} vs model {st['locked']}"
     return None
 
